@@ -7,6 +7,8 @@ use crate::algo::floyd_warshall::floyd_warshall_path;
 use crate::algo::{dijkstra, min_spanning_tree, BoundedMeasure, Measure};
 use crate::data::FromElements;
 use crate::graph::{IndexType, NodeIndex, UnGraph};
+#[cfg(feature = "stable_graph")]
+use crate::unionfind::UnionFind;
 use crate::visit::{
     Data, EdgeRef, GraphBase, GraphProp, IntoEdgeReferences, IntoEdges, IntoNeighbors,
     IntoNodeIdentifiers, IntoNodeReferences, NodeCompactIndexable, NodeIndexable, Visitable,
@@ -195,6 +197,23 @@ where
         subgraph_edges.contains(&(edge.0, edge.1)) || subgraph_edges.contains(&(edge.1, edge.0))
     });
     graph.retain_nodes(|_, n| subgraph_nodes.contains(&n));
+
+    // The union of the chosen shortest paths can contain cycles when paths overlap
+    // (equal-weight alternatives): keep only a minimum spanning tree of it.
+    let mut candidate_edges = graph
+        .edge_references()
+        .map(|e| (*e.weight(), e.id()))
+        .collect::<Vec<_>>();
+    candidate_edges.sort();
+    let mut components = UnionFind::<usize>::new(graph.node_bound());
+    let mut tree_edges = HashSet::new();
+    for (_, e) in candidate_edges {
+        let (a, b) = graph.edge_endpoints(e).unwrap();
+        if components.union(a.index(), b.index()) {
+            tree_edges.insert(e);
+        }
+    }
+    graph.retain_edges(|_, e| tree_edges.contains(&e));
 
     let non_terminal_nodes = non_terminal_leaves(&graph, terminals);
     graph.retain_nodes(|_, n| !non_terminal_nodes.contains(&n));
